@@ -3,7 +3,7 @@
 Confirm a seeded change (patch.diff + demo.py [+ notes.md]) in a scratch worktree, run the registered check(s)
 against /repo with the change applied (and undo it), store everything under /verif/seeded/SEED_ID/."""
 import json, os, shutil, subprocess, sys, tempfile, time
-prop, src, sid = sys.argv[1], sys.argv[2], sys.argv[3]
+prop, src, sid = sys.argv[1], os.path.abspath(sys.argv[2]), sys.argv[3]
 props = [prop] + sys.argv[4:]
 V = os.path.dirname(os.path.dirname(os.path.abspath(__file__)))
 def sh(cmd, **kw):
@@ -27,22 +27,26 @@ try:
 finally:
     sh(f"git -C /repo worktree remove --force {wt}")
 meta["confirmed"] = bool(meta.get("demo_on_head_exit") == 0 and meta.get("patch_applies") and meta.get("demo_with_patch_exit") != 0 and meta.get("baseline_ok"))
-# run the checks against /repo with the change applied
-assert sh("git -C /repo status --porcelain --untracked-files=no").stdout.strip() == "", "/repo not clean"
+# run the checks against a scratch worktree of /repo with the change applied (FT_REPO), so that other
+# work reading /repo is not disturbed; equivalent to `git -C /repo apply` + run + `git checkout -- .`
+wt2 = tempfile.mkdtemp(prefix="ft-sw-")
+os.rmdir(wt2)
 try:
-    assert sh(f"git -C /repo apply {src}/patch.diff").returncode == 0
+    assert sh(f"git -C /repo worktree add --detach {wt2} HEAD").returncode == 0
+    assert sh(f"git -C {wt2} apply {src}/patch.diff").returncode == 0
     for p in props:
         t0 = time.time()
-        r = sh(f"{V}/check {p} --tier quick --no-build", cwd=V)
+        r = sh(f"FT_REPO={wt2} {V}/check {p} --tier quick --no-build", cwd=V)
         lines = [l for l in r.stdout.splitlines() if l.startswith("VIOLATION") or l.startswith(p + " [")]
-        meta["ran"].append({"check": p, "exit": r.returncode, "wall_s": round(time.time() - t0, 1), "lines": lines[:6]})
+        meta["ran"].append({"check": p, "exit": r.returncode, "wall_s": round(time.time() - t0, 1), "lines": lines[:6],
+                            "how": "FT_REPO=<scratch worktree of /repo HEAD with patch.diff applied> ./check " + p + " --tier quick"})
 finally:
-    sh("git -C /repo checkout -- .")
+    sh(f"git -C /repo worktree remove --force {wt2}")
 meta["caught_by"] = [x["check"] for x in meta["ran"] if x["exit"] == 1]
 dst = os.path.join(V, "seeded", sid)
 os.makedirs(dst, exist_ok=True)
 for f in ("patch.diff", "demo.py", "notes.md"):
-    if os.path.exists(os.path.join(src, f)):
+    if os.path.exists(os.path.join(src, f)) and os.path.abspath(src) != os.path.abspath(dst):
         shutil.copy(os.path.join(src, f), dst)
 json.dump(meta, open(os.path.join(dst, "meta.json"), "w"), indent=1)
 print(json.dumps(meta, indent=1))
